@@ -1167,10 +1167,13 @@ class Interp:
             if spec is None:
                 raise Unsupported(f"for loop at line {s.lineno} over a symbolic range needs an invariant ({lname})")
             return self.invariant_loop(s, env, spec, lname, kind="range", rng=it)
-        if isinstance(it, SymArr) or (spec is not None and spec.get("invariant") is not None):
+        if isinstance(it, EnumArr) or (isinstance(it, SymArr) and not isinstance(simp(it.shape[0]), int)):
             if spec is None:
                 raise Unsupported(f"for loop at line {s.lineno} over a symbolic array needs an invariant ({lname})")
-            return self.invariant_loop(s, env, spec, lname, kind="array", arr=it)
+            arr = it.arr if isinstance(it, EnumArr) else it
+            rng = RangeObj(0, self.unC(arr.shape[0]) if not isinstance(arr.shape[0], CV) else arr.shape[0].term, 1)
+            return self.invariant_loop(s, env, spec, lname, kind="range", rng=rng,
+                                       elem_of=(arr, isinstance(it, EnumArr), getattr(it, "start", 0)))
         items = self.iter_concrete(it)
         return self.concrete_for(s, env, items)
 
@@ -1286,15 +1289,31 @@ class Interp:
         finally:
             self.overflow_checks = saved
 
-    def invariant_loop(self, s, env, spec, lname, kind, rng=None, arr=None):
+    def invariant_loop(self, s, env, spec, lname, kind, rng=None, arr=None, elem_of=None):
         cx = self.ctx
         inv = spec.get("invariant", [])
         hav, extra = self.havoc_targets(s, env, spec)
         tname = None
+        elem_names = ()
         if kind == "range":
-            if not isinstance(s.target, ast.Name):
+            if elem_of is not None:
+                # for x in arr / for i, x in enumerate(arr): iterate a hidden index;
+                # the invariant may refer to it as `_idx` (and to `i` for enumerate)
+                e_arr, is_enum, e_start = elem_of
+                if is_enum:
+                    if not (isinstance(s.target, ast.Tuple) and len(s.target.elts) == 2
+                            and all(isinstance(e, ast.Name) for e in s.target.elts)):
+                        raise Unsupported("enumerate loop target")
+                    tname = s.target.elts[0].id
+                    elem_names = (s.target.elts[1].id,)
+                    if e_start != 0:
+                        raise Unsupported("enumerate with start")
+                else:
+                    raise Unsupported("direct iteration over a symbolic array (use an index loop)")
+            elif not isinstance(s.target, ast.Name):
                 raise Unsupported("range loop with tuple target")
-            tname = s.target.id
+            else:
+                tname = s.target.id
             start, stop, step = self.unC(rng.start), self.unC(rng.stop), self.unC(rng.step)
             if not isinstance(step, int) or step not in (1, -1):
                 raise Unsupported("symbolic range with step other than +-1")
@@ -1321,7 +1340,7 @@ class Interp:
         for k, (txt, g) in enumerate(self.eval_spec_exprs(inv, env)):
             cx.oblige(f"{lname}::inv_entry#{k}", g, "loop-entry", {"expr": str(txt)})
         which = cx.choose(2)
-        self.do_havoc(hav, extra, env, skip=(tname,) if tname else ())
+        self.do_havoc([h for h in hav if h not in elem_names], extra, env, skip=(tname,) if tname else ())
         if which == 0:
             # (2) arbitrary iteration
             if kind == "range":
@@ -1343,6 +1362,9 @@ class Interp:
                     dec0 = self.eval_spec_term(spec["decreases"], env)
                     cx.oblige(f"{lname}::decreases_nonneg", zint(dec0) >= 0, "termination")
             cx.probe(f"{lname}::body_reachable")
+            if elem_of is not None:
+                self.cur_node = s
+                self.store_name(env, elem_names[0], self.getitem(elem_of[0], e0.vars[tname], env))
             try:
                 self.exec_block(s.body, env)
             except ContinueEx:
@@ -2095,6 +2117,13 @@ class SuperProxy:
 class OpaqueStr:
     """string whose content is irrelevant (exception messages)"""
     pass
+
+
+class EnumArr:
+    """enumerate() over an array of symbolic length"""
+    def __init__(self, arr, start=0):
+        self.arr = arr
+        self.start = start
 
 
 class ConcIter:
